@@ -218,6 +218,7 @@ func c04(p *model.Prog, r *report.Result) {
 	c04Writer(p, r)
 	c04Buf(p, r)
 	c04r13(p, r, "C04.REFUSE")
+	w8MsgLenBeforeRead(p, r, "C04.MSGLEN")
 	r.Rule("C04.NILF", "fields that lal itself compares with nil somewhere are, in every function of the RTMP server surface, dereferenced only behind the non-nil edge of a test of the same field expression or a dominating non-nil store; reviewed exceptions are listed per (function, field)")
 	{
 		var scope []*ssa.Function
